@@ -19,8 +19,20 @@ operation is ALSO computed in the same run through the elementwise secure-scalar
 operators / mpc.sum / mpc.prod / mpc.all / mpc.min / mpc.max / mpc.sorted / mpc.matrix_prod / mpc.in_prod) and
 compared with the same oracle.  A light end-to-end touch of array sharing: np_random_split / np_recombine /
 np_pseudorandom_share(_0) against the list versions (details are C12 / C15).
+
+Known findings (classes are decided by `known_class`; the generator keeps records of a class out of the mixed cases
+by construction and emits them alone now and then, so that they are counted as KNOWN-FINDING and never mask other
+records): F37a np.stack negative axis, F37b prod/all/any over an empty axis, F37c output of zero-size arrays over a
+lifted small prime field, F37d rot90 with even k, F37e 0-d arrays with scalar operands, F37f argmin/argmax along an
+axis of length 1, F37g field array / secure scalar, F37h secure scalar <cmp> secure array, F37i np_lsb without PRSS,
+F37j fixed-point array from an empty float ndarray, F37k amin/amax keepdims along axis 0, F37l ndarray <cmp> secure
+array (operands swapped), F37m argmin/argmax of 3-D arrays along axis 0, F37n << on lifted small prime fields,
+F37o np_roll with a secret shift on fixed-point arrays, F37p a.argmin(axis) value shape, F37q np_trunc of
+fixed-point arrays is f bits short (wrong products for SecFxp(64,32)), F37r _item_shape for advanced indices
+separated by an empty Ellipsis, F37s public 1-D float array @ secure 1-D fixed-point array.
 """
 import math
+import random
 import traceback
 from fractions import Fraction as Fr
 from hypothesis import strategies as st
@@ -53,7 +65,7 @@ CASE_TIMEOUT = 300
 
 
 def budget(tier):
-    return dict(shards=16, examples=250 if tier == "quick" else 5000)
+    return dict(shards=16, examples=350 if tier == "quick" else 6000)
 
 
 # ============================================================================================ type context
@@ -919,7 +931,7 @@ def _gen(draw, T, name, m):
             shape = []
         rec['a'] = [draw(_arr(T, shape, (T.l - 1) if not fld else None))]
     elif sig == 'sgn':
-        rec['a'] = [draw(_arr(T, draw(_shape()), T.l - 1))]
+        rec['a'] = [draw(_arr(T, draw(_shape())))]     # full range, -2^(l-1) included
         P['flags'] = draw(st.sampled_from([[], [], ['LT'], ['EQ']]))
     elif sig == 'pow':
         if fld:
@@ -1231,7 +1243,7 @@ def _gen(draw, T, name, m):
         else:
             rec['a'] = [draw(_arr(T, [draw(st.integers(1, 4))])) for _ in range(draw(st.integers(1, 3)))]
     elif sig == 'io':
-        mode = draw(st.sampled_from(['one', 'one', 'all', 'ctor']))
+        mode = draw(st.sampled_from(['one', 'one', 'all', 'ctor', 'ctor']))
         P['mode'] = mode
         shape = draw(_shape())
         if mode == 'all':
@@ -1277,6 +1289,15 @@ def _index_key(draw, shape, advanced=True):
     used_ell = False
     i = 0
     adv_used = False
+    if kind == 'basic' and draw(st.integers(0, 3)) == 0:
+        # new axes (and possibly an index) BEFORE an ellipsis: the expansion of '...' must skip the new axes
+        key = [None] * draw(st.integers(1, 2))
+        if nd and shape[0] > 0 and draw(st.booleans()):
+            key.append(draw(st.integers(-shape[0], shape[0] - 1)))
+            i = 1
+        key.append('...')
+        used_ell = True
+        i += draw(st.integers(0, nd - i))
     while i < nd:
         d = shape[i]
         choices = ['slice', 'slice', 'stop']
@@ -1347,6 +1368,8 @@ def _kind_letter(T):
     return {'int': 'i', 'fxp': 'x'}.get(T.kind) or ('e' if T.d > 1 else 'f')
 
 
+WEIGHT = {'io': 4, 'matmul': 3, 'mul': 2, 'convolve': 2, 'sort': 2, 'sum': 2, 'prod': 2, 'getitem': 3, 'reshape': 2,
+          'concatenate': 2, 'stack': 2, 'where': 2, 'argmin': 2, 'argmax': 2, 'amin': 2, 'amax': 2, 'lt': 2, 'eq': 2}
 HEAVY = {'sort', 'argmin', 'argmax', 'argmin_meth', 'argmax_meth', 'roll_sec', 'amin', 'amax', 'sgn', 'abs', 'lt', 'le', 'gt', 'ge', 'eq', 'ne', 'less', 'equal',
          'minimum', 'maximum', 'prod', 'all', 'any', 'lsb'}
 
@@ -1357,12 +1380,13 @@ def _case(draw, tier):
     ty = draw(_type(m, t))
     T = TC(ty)
     letter = _kind_letter(T)
-    names = sorted(n for n, o in OPS.items() if letter in o.kinds)
+    names = sorted(n for n, o in OPS.items() if letter in o.kinds for _ in range(WEIGHT.get(n, 1)))
     nops = draw(st.integers(1, 6 if m < 3 else 3))
     ops = []
     heavy = 0
     kept_known = None
-    rnd = draw(st.randoms(use_true_random=False))   # uniform choice of operations (sampled_from favours the first)
+    # uniform choice of operations: a PRNG seeded by a drawn integer (sampled_from / st.randoms favour the first entries)
+    rnd = random.Random(draw(st.integers(0, 2**64 - 1)))
     for _ in range(nops):
         name = rnd.choice(names)
         if name in HEAVY:
@@ -1402,10 +1426,10 @@ def _flag(T, spec):
     """Public integrality flag of an operand spec (sanitised: True only if every value is whole)."""
     if T.kind != 'fxp':
         return None
-    whole = all(int(v) % (1 << T.f) == 0 for v in spec.get('v', [spec.get('v')]) ) if isinstance(spec.get('v'), list) \
-        else int(spec['v']) % (1 << T.f) == 0
+    vals = spec['v'] if isinstance(spec['v'], list) else [spec['v']]
+    whole = all(int(v) % (1 << T.f) == 0 for v in vals)
     if spec.get('int') is None:
-        return whole
+        return whole      # flag inferred by the public constructor
     return bool(spec['int']) and whole
 
 
@@ -1710,8 +1734,15 @@ def known_class(T, m, t, rec, leaves=None, prss=True):
             return 'F37f'
     if name == 'div' and rec.get('form') == 'sq':
         return 'F37g'
+    if name in ('getitem', 'update') and _in_f37r(shapes[0], P['key']):
+        return 'F37r'
     if name == 'roll_sec' and T.kind == 'fxp':
         return 'F37o'
+    if name == 'matmul' and rec.get('form') == 'ps' and len(rec['pub']['sh']) == 1 and len(shapes[0]) == 1 and \
+            ((T.kind == 'fxp' and rec['pub']['t'] == 'farr') or (T.kind == 'fld' and T.d == 1 and t > 0 and T.p <= m)):
+        return 'F37s'
+    if T.kind == 'fxp' and T.f >= 24 and name in ('mul', 'matmul', 'outer', 'convolve', 'pow'):
+        return 'F37q'
     if name in ('argmin_meth', 'argmax_meth') and P.get('axis') is not None:
         sh = shapes[0]
         if sh[P['axis']] == 1 and math.prod(sh) > 1:
@@ -1745,9 +1776,28 @@ def known_class(T, m, t, rec, leaves=None, prss=True):
                 leaves = _ref_eval(T, rec)[0]
             except Exception:
                 leaves = []
-        if any(sh is not None and math.prod(sh) == 0 for sh, _ in leaves):
+        if any(sh is not None and (math.prod(sh) == 0 or len(sh) == 0) for sh, _ in leaves) or any(sh == [] for sh in shapes):
             return 'F37c'
     return None
+
+
+def _in_f37r(shape, key):
+    """Advanced indices on both sides of an Ellipsis that expands to NO axes (NumPy treats them as separated)."""
+    if not isinstance(key, list) or '...' not in key:
+        return False
+    e = key.index('...')
+
+    def adv(part):
+        return any(isinstance(c, dict) and ('ia' in c or 'ba' in c) for c in part)
+
+    def idx(part):
+        return any((isinstance(c, int) and not isinstance(c, bool)) or (isinstance(c, dict) and ('ia' in c or 'ba' in c))
+                   for c in part)
+    left, right = key[:e], key[e + 1:]
+    if not ((adv(left) and idx(right)) or (idx(left) and adv(right))):
+        return False
+    consumed = sum(1 for c in left + right if c is not None)
+    return consumed >= len(shape)
 
 
 def run_case(case):
